@@ -622,6 +622,8 @@ class Program:
         from . import anchors as A
         self.aliases = A.canonicalise(units)      # renamed functions get their reference names back (see anchors.py)
         A.APPLIED[:] = sorted(set(A.APPLIED) | set(self.aliases))
+        from . import inline as INL
+        self.expanded = INL.expand_setters(units)  # field-setter helpers are spliced into their callers (see inline.py)
         self.units = units
         self.all_metas = metas
         self._index()
